@@ -48,6 +48,7 @@ type step struct {
 	St      map[string]string `json:"st"`
 	Ipfs    map[string]string `json:"ipfs"`
 	Healthy bool              `json:"healthy"`
+	NoExp   bool              `json:"noexp"`
 	Proj    proj              `json:"proj"`
 }
 
@@ -114,6 +115,7 @@ func newEnv(sc *script, seed int64) (*env, error) {
 		e.names.Cid(c)
 	}
 	e.daemon = NewDaemon(e.names.CidName, e.names.Cid)
+	e.daemon.FailSalt = seed
 	cfg := &stateless.Config{}
 	cfg.Default()
 	cfg.ConcurrentPins = sc.K
@@ -383,6 +385,24 @@ func runScript(sc *script, seed int64, out chan<- *obsRec) (matched bool, infra 
 	for i := range sc.Steps {
 		s := &sc.Steps[i]
 		res, err := e.do(s.Act)
+		if s.NoExp {
+			// last action of a behaviour that ends before the next stable state: no prediction to compare
+			// with; record the result and let the epilogue judge what the real code makes of it
+			o := e.waitStable(60*time.Millisecond, 2*time.Second)
+			o.Script, o.I, o.Act, o.Res, o.ExpRes, o.Healthy = sc.ID, i, s.Act, res, s.Res, false
+			o.Match = err == nil && (res == "" || res == s.Res)
+			if !o.Match {
+				o.Why = "result"
+				if err != nil {
+					o.Why = "action not executable: " + err.Error()
+				}
+				matched = false
+			}
+			o.Quiescent = false
+			o.Filters = []filterObs{}
+			out <- o
+			break
+		}
 		var o *obsRec
 		if err == nil {
 			// poll until the real tracker shows the state the specification predicts
